@@ -3,6 +3,7 @@ import Model.ReqFacts
 import Model.ReqSite
 import Model.ReqLimit
 import Model.ReqReg
+import Model.ReqCap
 import Spec.Req
 import Generated.C11Superglobals
 import Drivers.Common
@@ -34,6 +35,12 @@ import Drivers.Common
      identity, `shared` = one key for everybody; req = space separated steps  a.<reg>.<val> (Store) · n.<reg>.<val>
      (LoadOrStore) · l.<reg> (Load, observed) · d.<reg> (Delete) · gate · write; turn as above
     → per request everything it observed, in order  <v>,<v>,…  joined by `;`   (`~` = no entry)
+  cap <TAB> <gen|copy|alias> <TAB> <scalar|arr|obj> <TAB> <v>,<v>,… <TAB> <req>;<req>;… <TAB> <turn>,<turn>,…
+     `Model.ReqCap`: every request runs the ONE closure that captured by value a value of that kind with the given
+     boot content; binding `gen` = from the regenerated capture facts (`copiedOf facts`), `copy` / `alias` explicit;
+     req = <datum>#<steps>, steps space separated:  s.<i> (set) · p (push) · rw (rewind) · n (next) · ra (readAll) ·
+     gate · write; the first turn of a request also enters the closure (the binding)
+    → per request everything it observed, in order  <v>,<v>,…  joined by `;`
   facts                                   → summary of the regenerated facts
 -/
 open Model.Req
@@ -217,8 +224,55 @@ def handleReg (cfg : String) (reqs : String) (turns : String) : String :=
     ";".intercalate ((List.range progs.length).map fun r => showObs ((s.req r).body ++ (s.req r).pending))
   | _, _, _ => "bad-reg"
 
+def parseCapStep (s : String) : Option Model.ReqCap.Step :=
+  match s.splitOn "." with
+  | ["s", i] => i.toNat?.map Model.ReqCap.Step.set
+  | ["p"] => some .push
+  | ["rw"] => some .rewind
+  | ["n"] => some .next
+  | ["ra"] => some .readAll
+  | ["gate"] => some .gate
+  | ["write"] => some .write
+  | _ => none
+
+def parseCapReq (s : String) : Option (Nat × List Model.ReqCap.Step) :=
+  match s.splitOn "#" with
+  | [d, st] => do
+      let d ← d.toNat?
+      let st ← ((st.splitOn " ").filter (· ≠ "")).mapM parseCapStep
+      some (d, st)
+  | _ => none
+
+def capSegments : List Model.ReqCap.Step → List Nat → Nat → List Nat
+  | [], acc, cur => (if cur = 0 then acc else cur :: acc).reverse
+  | .gate :: rest, acc, cur => capSegments rest ((cur + 1) :: acc) 0
+  | _ :: rest, acc, cur => capSegments rest acc (cur + 1)
+
+def handleCap (bind kind boot reqs turns : String) : String :=
+  let k : Option Model.ReqCap.Kind :=
+    match kind with | "scalar" => some .scalar | "arr" => some .arr | "obj" => some .obj | _ => none
+  let nats (s : String) : Option (List Nat) := if s.isEmpty then some [] else (s.splitOn ",").mapM String.toNat?
+  match k, nats boot, (reqs.splitOn ";").mapM parseCapReq, nats turns with
+  | some k, some boot, some reqs, some turns =>
+    let copied : Option Bool :=
+      if bind == "gen" then some (Model.ReqCap.copiedOf Generated.C11Superglobals.facts k)
+      else if bind == "copy" then some true else if bind == "alias" then some false else none
+    match copied with
+    | none => "bad-cap"
+    | some copied =>
+      let w : Model.ReqCap.World :=
+        { kind := k, copied := copied, boot := boot,
+          prog := fun r => (reqs[r]?.map (·.2)).getD [], datum := fun r => (reqs[r]?.map (·.1)).getD 0 }
+      -- the first segment of a request is one turn longer: entering the closure
+      let segs := reqs.map fun q => match capSegments q.2 [] 0 with | [] => [1] | n :: more => (n + 1) :: more
+      let s := Model.ReqCap.run w (Model.ReqCap.init w) (expand segs turns)
+      ";".intercalate ((List.range reqs.length).map fun r =>
+        ",".intercalate ((((s.reqs r).body).getD (s.reqs r).obs).map toString))
+  | _, _, _, _ => "bad-cap"
+
 def handle (line : String) : String :=
   match line.splitOn "\t" with
+  | ["cap", bind, kind, boot, reqs, turns] => handleCap bind kind boot reqs turns
   | ["limit", cfg, callees, reqs, turns] => handleLimit cfg callees reqs turns
   | ["reg", cfg, reqs, turns] => handleReg cfg reqs turns
   | ["site", scope, ds, turns] => handleSite scope ds turns
@@ -243,7 +297,7 @@ def handle (line : String) : String :=
   | ["facts"] =>
     let f := Generated.C11Superglobals.facts
     let sc := String.ofList (Kind.all.map fun k => if f.scope k = .perRequest then 'R' else 'P')
-    s!"scope={sc} handlerResets={f.handlerResets} outer={f.outer} violations={f.violations.length} entryViolations={f.entryViolations.length} nodeWrites={f.nodeWrites.length} nodeWriteViolations={f.nodeWriteViolations} depthGuards={f.depthGuards.map (fun d => s!"{d.fn}:{d.counter}:{d.limit}:{d.decidesOn}:{d.ownLimit}")} guardViolations={f.guardViolations} registrySites={f.registries.length} registryViolations={f.registryViolations} limits={",".intercalate (f.limits.map toString)}"
+    s!"scope={sc} handlerResets={f.handlerResets} outer={f.outer} violations={f.violations.length} entryViolations={f.entryViolations.length} nodeWrites={f.nodeWrites.length} nodeWriteViolations={f.nodeWriteViolations} depthGuards={f.depthGuards.map (fun d => s!"{d.fn}:{d.counter}:{d.limit}:{d.decidesOn}:{d.ownLimit}")} guardViolations={f.guardViolations} registrySites={f.registries.length} registryViolations={f.registryViolations} limits={",".intercalate (f.limits.map toString)} captureBinds={f.captureBinds.length} captureViolations={f.captureViolations}"
   | _ => "bad-op"
 
 def main : IO Unit := Drivers.runDriver handle
